@@ -221,6 +221,9 @@ func (t *FnTrans) edge(from, to *ssa.BasicBlock, cond string, st *HeapState) {
 
 func (t *FnTrans) alloc(x *ssa.Alloc, st *HeapState, reach string) {
 	name := t.allocRef("alloc." + x.Comment)
+	if t.privateAlloc[x] && t.loopDepth(x.Block()) == 0 {
+		t.privateRefs[name] = true
+	}
 	el := x.Type().Underlying().(*types.Pointer).Elem()
 	// zero-initialise
 	t.store(st, t.cellLoc(el, name), t.zeroVal(el))
@@ -496,6 +499,9 @@ func (t *FnTrans) makeSlice(x *ssa.MakeSlice, st *HeapState, reach string) {
 	z := t.mode.intLit64(0, 64)
 	t.safety("makelen", x.Pos(), reach, and(t.cmpIdx("<=", z, ln), t.cmpIdx("<=", ln, cp)))
 	name := t.allocRef("mkslice")
+	if t.privateAlloc[x] && t.loopDepth(x.Block()) == 0 {
+		t.privateRefs[name] = true
+	}
 	el := x.Type().Underlying().(*types.Slice).Elem()
 	if es := t.mode.scalarSort(el); es != "" {
 		comp := "B." + t.sortKey(el)
@@ -620,6 +626,9 @@ func (t *FnTrans) mapValComps(mt *types.Map) []compDesc {
 
 func (t *FnTrans) makeMap(x *ssa.MakeMap, st *HeapState, reach string) {
 	name := t.allocRef("mkmap")
+	if t.privateAlloc[x] && t.loopDepth(x.Block()) == 0 {
+		t.privateRefs[name] = true
+	}
 	mt := x.Type().Underlying().(*types.Map)
 	if comp, srt, ks, ok := t.mapComps(mt); ok {
 		arr := t.heapGet(st, comp, srt)
@@ -847,4 +856,15 @@ func (t *FnTrans) constGlobalVal(g *ssa.Global, cg *constGlobal, ty types.Type) 
 	}
 	n := t.mode.intLit64(int64(len(cg.elems)), 64)
 	return Val{K: VSlice, T: ty, Sub: []Val{scalar(nil, name), scalar(nil, t.mode.intLit64(0, 64)), scalar(nil, n), scalar(nil, n)}}
+}
+
+// loopDepth: number of natural loops containing the block.
+func (t *FnTrans) loopDepth(b *ssa.BasicBlock) int {
+	n := 0
+	for _, li := range t.loops {
+		if li.blocks[b] {
+			n++
+		}
+	}
+	return n
 }
